@@ -9,7 +9,8 @@
         "heat": null | {"rows":[str…], "phases":[[name,num]…], "loss":[[num…]…]}}
   out: {"ok":true, "graph":{…}, "heat":[{"name","loss","mix"}…]|null, "maxloss": "n/d"|null, "config_after":{…}}
      | {"ok":false, "err":{"cls","detail"}, "config_after":{…}}
-  Every node and edge endpoint also carries `rid`, the identifier Graphviz ends up with (`renderedId`, F23).
+  Every node and edge endpoint also carries `rid`, the identifier Graphviz reads back from `_q(name)`
+  (`renderedId`; null when DOT cannot express the name, finding F23f).
   Anything malformed answers `bad-op`.
 -/
 import SysLoss.Driver.Wire
@@ -102,8 +103,10 @@ def configOut (c : Config) : Json :=
               ("node", optOutJ sectOut c.node), ("edge", optOutJ attrsOut c.edge),
               ("other", .arr (c.other.map Json.str).toArray)]
 
+def ridOut (n : String) : Json := match renderedId n with | some r => Json.str r | none => .null
+
 def nodeOut (n : DNode) : Json :=
-  Json.mkObj [("name", n.name), ("rid", renderedId n.name), ("attrs", attrsOut n.attrs)]
+  Json.mkObj [("name", n.name), ("rid", ridOut n.name), ("attrs", attrsOut n.attrs)]
 
 def graphOut (d : DotGraph) : Json :=
   Json.mkObj [
@@ -114,7 +117,7 @@ def graphOut (d : DotGraph) : Json :=
     ("nodes", .arr (d.nodes.map nodeOut).toArray),
     ("scale", optOutJ nodeOut d.scale),
     ("edges", .arr (d.edges.map fun e =>
-        Json.mkObj [("src", e.src), ("dst", e.dst), ("rsrc", renderedId e.src), ("rdst", renderedId e.dst),
+        Json.mkObj [("src", e.src), ("dst", e.dst), ("rsrc", ridOut e.src), ("rdst", ridOut e.dst),
                     ("attrs", attrsOut e.attrs)]).toArray)]
 
 def ratOut (q : Rat) : Json := Json.str (toString q.num ++ "/" ++ toString q.den)
